@@ -322,6 +322,9 @@ def run(chk):
     chk.trust("Python grammar via ast", "pandas groupby(sort=False) yields groups in order of first appearance; boolean-mask selection (absmodel.py)",
               "numpy bool: ~True == False")
     chk.assume("the estimator passed to center_all is a function of the values it is given (treated as an opaque symbol per call)")
+    chk.clause("PAR", "which bins count as PAR-X / PAR-Y: the filters on literal bins around every PAR boundary (C01-D2b rule)")
+    from . import C01
+    C01.par_key_label(chk, prog)
     d1(chk, prog)
     d2(chk, prog)
     from . import C19
